@@ -2,9 +2,10 @@
   C18 — resource-lifecycle findings follow from the observed history.  Property theorems only.
 -/
 import SV.Spec.C18
+import SV.Proofs.C18Tree
 
 namespace SV.Props.C18
-open SV.Model.C18 SV.Spec.C18
+open SV.Model.C18 SV.Spec.C18 SV.Proofs.C18Tree
 
 /-- The zip loop of `_is_prefix_operation` decides segment-wise agreement (no KeyError when identifiers are bound). -/
 theorem zipLoop_spec (l r : RPath) (ls rs : List (List Char)) (hb : allBound l r ls rs = true) :
@@ -158,6 +159,63 @@ theorem asFound_miss :
 example : relsBound (findRelated missTree 1) ⟨1, some 0, "GET".toList, p "/users/{id}" [("id", "1")], some 200⟩ = true ∧
     specUAF (findRelated missTree 1) ⟨1, some 0, "GET".toList, p "/users/{id}" [("id", "1")], some 200⟩ 200 = true := by
   decide
+
+/-! ### use after free, closed form: no hypothesis mentions the traversal any more -/
+
+/-- C18 (use after free), repaired variant: on a well-formed recorder (distinct ids, parents recorded before their
+    children) and for a current case without children, a report is produced iff the answer was neither 404 nor 5xx
+    and some *other* case of the same scenario tree is a DELETE answered 2xx on the same resource. -/
+theorem uaf_exact (t : Tree) (cur : Node) (status : Nat)
+    (hwf : WF t) (hcur : cur ∈ t) (hleaf : IsLeaf t cur.id)
+    (hb : ∀ n ∈ t, bound n.rpath cur.rpath = true) :
+    (∃ i, useAfterFree .repaired t cur status = .fail i) ↔
+      (status ≠ 404 ∧ status < 500 ∧
+        ∃ n ∈ t, n.id ≠ cur.id ∧ rootOf t t.length n.id = rootOf t t.length cur.id ∧
+          deleted2xx n = true ∧ sameResource n.rpath cur.rpath = true) := by
+  have hmem := findRelated_mem t cur.id hwf ⟨cur, hcur, rfl⟩ hleaf
+  have hstat : ∀ n ∈ findRelated t cur.id, findResponse t n.id = n.status :=
+    fun n hn => findResponse_of_mem t hwf n ((hmem n).1 hn).1
+  have hb' : relsBound (findRelated t cur.id) cur = true := by
+    unfold relsBound
+    rw [List.all_eq_true]
+    exact fun n hn => hb n ((hmem n).1 hn).1
+  rw [uaf_exact_partial t cur status hstat hb']
+  unfold specUAF
+  simp only [Bool.and_eq_true, bne_iff_ne, ne_eq, decide_eq_true_eq, List.any_eq_true, hmem]
+  constructor
+  · rintro ⟨⟨h1, h2⟩, n, ⟨hn, hne, hr⟩, hd, hs⟩
+    exact ⟨h1, h2, n, hn, hne, hr, hd, hs⟩
+  · rintro ⟨h1, h2, n, hn, hne, hr, hd, hs⟩
+    exact ⟨⟨h1, h2⟩, n, ⟨hn, hne, hr⟩, hd, hs⟩
+
+/-- POST /users → 201; DELETE /users/1 → 204; GET /users/1 → 200 (siblings below the POST) -/
+def uafTree : Tree :=
+  [ ⟨0, none, "POST".toList, p "/users" [], some 201⟩,
+    ⟨1, some 0, "DELETE".toList, p "/users/{id}" [("id", "1")], some 204⟩,
+    ⟨2, some 0, "GET".toList, p "/users/{id}" [("id", "1")], some 200⟩ ]
+
+/-- non-vacuity: every hypothesis of `uaf_exact` holds on a concrete 3-node tree, and so does the right-hand side -/
+example :
+    let cur : Node := ⟨2, some 0, "GET".toList, p "/users/{id}" [("id", "1")], some 200⟩
+    WF uafTree ∧ cur ∈ uafTree ∧ IsLeaf uafTree cur.id ∧
+    (∀ n ∈ uafTree, bound n.rpath cur.rpath = true) ∧
+    ((200 : Nat) ≠ 404 ∧ 200 < 500 ∧
+      ∃ n ∈ uafTree, n.id ≠ cur.id ∧ rootOf uafTree uafTree.length n.id = rootOf uafTree uafTree.length cur.id ∧
+        deleted2xx n = true ∧ sameResource n.rpath cur.rpath = true) ∧
+    useAfterFree .repaired uafTree cur 200 = .fail 1 := by
+  intro cur
+  refine ⟨⟨by decide, ?_⟩, .tail _ (.tail _ (.head _)), by unfold IsLeaf; decide, by decide, ?_, by decide⟩
+  · intro i h q hq
+    have hi : i = 0 ∨ i = 1 ∨ i = 2 := by
+      simp only [uafTree, List.length_cons, List.length_nil] at h
+      omega
+    rcases hi with rfl | rfl | rfl
+    · simp [uafTree] at hq
+    · exact ⟨0, by omega, by decide, by simpa [uafTree] using hq⟩
+    · exact ⟨0, by omega, by decide, by simpa [uafTree] using hq⟩
+  · refine ⟨by decide, by decide, ⟨1, some 0, "DELETE".toList, p "/users/{id}" [("id", "1")], some 204⟩,
+      .tail _ (.head _), ?_⟩
+    decide
 
 /-! ### ensure_resource_availability: reported only under the stated conditions -/
 
